@@ -16,6 +16,7 @@ BYFILE = [('src/str.c', 'C01'), ('src/ustr.c', 'C01'), ('src/mbuff.c', 'C07'), (
 def prop_of(subj, files):
     s = subj.lower()
     if 'version_compare' in s: return 'C17'
+    if 'set_program_name' in s: return 'C16'
     if 'condense_whitespace' in s or 'safe_strncpy' in s: return 'C13' if 'condense' in s else 'C16'
     if 'split' in s or 'tok_eval' in s or 'num_words' in s: return 'C12'
     if ' comp' in s or ' dup' in s and ('objpair' in s or 'tok' in s or 'url dup' in s): return 'C05'
